@@ -11,7 +11,7 @@ CHECKS = {
    "Little-endian only at whole-byte widths; ULEB128 in [2^63,2^64) may be rejected; float80 compared up to one ulp.",
    "runtime monitor: reflection-driven differential check of reader calls against an arithmetic oracle", "DESIGN.md §3 C02"),
  "C06": ("exploration",
-   "A finite enumerable mutation family (truncations, bit flips, byte overwrites, length saturation, block dup/remove) around the <=6 smallest corpus samples per format x all registered formats + probe x force runs in isolated worker processes; an event is a Go panic escaping decode.Decode/interp.Main or the death of the worker by a Go fatal error. Quick = PRNG slice (250k cases, equal share per format, 1/4 forced) + ~300k field-start cases (first byte of every leaf field of every own sample set to ff/00, plain and forced); thorough = every third case of the enumerated family (residue VERIF_SEED mod 3; ~19M cases in all) + the field-start cases. Workers run with a 256 MB goroutine stack limit so that runaway recursion ends in the runtime's own stack-overflow fault.",
+   "A finite enumerable mutation family (truncations, bit flips, byte overwrites, length saturation, block dup/remove) around the <=6 smallest corpus samples per format x all registered formats + probe x force runs in isolated worker processes; an event is a Go panic escaping decode.Decode/interp.Main or the death of the worker by a Go fatal error. Quick = PRNG slice (250k cases, equal share per format, 1/4 forced) + ~300k field-start cases (first byte of every leaf field of every own sample set to ff/00, plain and forced); thorough = every third case of the enumerated family (residue VERIF_SEED mod 3; ~19M cases in all) + the field-start cases. Workers run with a 128 MB goroutine stack limit so that runaway recursion ends in the runtime's own stack-overflow fault.",
    "Watchdog expiry and memory-limit kills (length-field bombs under force, decompression bombs) are inconclusive and listed per case, never verdicts. A crash needing two coordinated edits far apart is outside the family. A needle outside the field-start cases and the PRNG slice is only found by the thorough tier.",
    "runtime monitor: crash oracle over an enumerated fault family, process isolation with journaled workers", "DESIGN.md §3 C06"),
  "C07": ("exploration",
